@@ -28,7 +28,10 @@ Universe == [k : Key, ver : GVers, lh : Remote, var : {"set", "del"}]
 ValidPool(P) == \A a, b \in P : (a.k = b.k /\ a.ver = b.ver /\ a.lh = b.lh) => a = b
 Pools == {P \in kSubset(PoolSize, Universe) : ValidPool(P)}
 
-Batches(S) == UNION {[1..m -> S] : m \in 1..MaxBatch}
+(* candidate requests: sequences over the operations that may still be delivered     *)
+Avail == IF extra > 0 THEN pool ELSE {o \in pool : rem[o] > 0}
+MaxLen == LET n == Cardinality({o \in pool : rem[o] > 0}) + extra IN IF n < MaxBatch THEN n ELSE MaxBatch
+Batches == UNION {[1..m -> Avail] : m \in 1..MaxLen}
 Count(b, o) == Cardinality({i \in 1..Len(b) : b[i] = o})
 
 GInit ==
@@ -84,7 +87,7 @@ Terminal == (\A o \in pool : rem[o] = 0) /\ extra = 0 /\ locals = 0 /\ (LateSub 
 
 GNext ==
     /\ ~Terminal
-    /\ \/ \E b \in Batches(pool) : Sync(b)
+    /\ \/ \E b \in Batches : Sync(b)
        \/ \E k \in Key, var \in {"set", "del"} : Local(k, var)
        \/ SubLate
 
